@@ -62,24 +62,25 @@ Proof. exact nuke_static_document. Qed.
 Print Assumptions C01_static_document_survives_whitespace_pass.
 
 (** templates with interpolation, `=` scripts, unescaped `!=` / `!` lines, dynamic and conditional attributes, and
-    `-` blocks written without braces (if / for / switch, no else):
+    `-` blocks written without braces (if / else if / else chains, for, switch):
     the generated body is a run of literal chunks, dynamic blocks and Go statements `stmt { ... }`, [denotes],
     standing for the segments [segs_list body]: literal HTML ([SLit]), for each `= expr` / `#{expr}` the
     EscapeString-ed value of the expression ([SDyn]; [SRaw], the value as it is, after `!`), and for each `-` line its statement around the code of its
-    nested block ([SBlock]) — so the block renders exactly when, and as many times as, Go executes the statement.  [eval_segs rho] is the document
+    nested block ([SBlock]; [SBlockOpen] / [SBlockCont] / [SBlockLast] for the links of an if / else chain, which share
+    their braces: `if c {` ... `} else if d {` ... `} else {` ... `}`) — so the block renders exactly when, and as many times as, Go executes the statement.  [eval_segs rho] is the document
     under a valuation [rho] of the Go expressions; what Go does with a [denotes] run (a literal's value is appended,
     a dynamic block appends the escaped value or returns the error) is the trusted step. *)
 Theorem C01_template_with_interpolation_code : forall o body,
-  Forall dyn_node body ->
-  exists m' code,
-    denotes 2 false m' code (segs_list body) /\
+  Forall dyn_node body -> kids_ok body ->
+  exists (m' : bool) code,
+    denotes 2 false m' code (segs_list false body) /\
     item_err (Node (KGoht o) body) = None /\
     item_text (Node (KGoht o) body) =
       lit "func " ++ t_lit o ++ c_gohtEntry ++ code ++ (if m' then close_text (Lo 2) else []) ++ c_gohtExit.
 Proof. exact dyn_template_code. Qed.
 Print Assumptions C01_template_with_interpolation_code.
 
-Theorem C01_segments_of_static_tree : forall rho n, static_node n -> eval_segs rho (segs_of n) = html_node n.
+Theorem C01_segments_of_static_tree : forall rho n, static_node n -> eval_segs rho (segs_of false false n) = html_node n.
 Proof. exact eval_static. Qed.
 Print Assumptions C01_segments_of_static_tree.
 
@@ -135,27 +136,29 @@ Print Assumptions C01_nonvacuous.
 (** a real template with interpolation inside an element and a script line: its body is in the fragment, and its
     segments are the expected ones *)
 Definition ex2_src : bytes :=
-  lit "@goht T(a string, xs []string) {" ++ [10; 9] ++ lit "%p.c{title: #{a}, hidden ? #{a == """"}} hello #{a}!" ++ [10; 9] ++ lit "= a" ++ [10; 9] ++ lit "!= a" ++ [10; 9] ++
-  lit "- for _, x := range xs" ++ [10; 9; 9] ++ lit "%li= x" ++ [10; 9] ++ lit "- if a != """"" ++ [10; 9; 9] ++ lit "%b yes" ++ [10] ++ lit "}" ++ [10].
+  lit "@goht T(a string, xs []string) {" ++ [10; 9] ++ lit "%p.c{title: #{a}, hidden ? #{a == """"}} hello #{a}!" ++ [10; 9] ++ lit "= a" ++ [10; 9] ++
+  lit "!= a" ++ [10; 9] ++
+  lit "- for _, x := range xs" ++ [10; 9; 9] ++ lit "%li= x" ++ [10; 9] ++ lit "- if a != """"" ++ [10; 9; 9] ++ lit "%b yes" ++ [10; 9] ++
+  lit "- else if len(xs) > 0" ++ [10; 9; 9] ++ lit "%i some" ++ [10; 9] ++ lit "- else" ++ [10; 9; 9] ++ lit "%u no" ++ [10] ++ lit "}" ++ [10].
 Definition ex2_items : list node :=
   Eval vm_compute in match compile_parse ex2_src with ODone (Node _ items) None => items | _ => [] end.
 
 Example C01_nonvacuous_dynamic :
   match ex2_items with
   | Node (KGoht o) body :: _ =>
-      Forall dyn_node body /\
-      match segs_list body with
-      | [_; _; _; SDynQ _; SBlock s0 _; _; _; SDyn _; _; _; _; SDyn _; _; SRaw _; _; SBlock s1 b1; SBlock s2 b2] =>
+      Forall dyn_node body /\ kids_ok body /\
+      match segs_list false body with
+      | [_; _; _; SDynQ _; SBlock s0 _; _; _; SDyn _; _; _; _; SDyn _; _; SRaw _; _; SBlock s1 b1; SBlockOpen s2 b2; SBlockCont s3 b3; SBlockLast s4 b4] =>
           s0 = lit "if a == """"" /\
-          s1 = lit "for _, x := range xs" /\ s2 = lit "if a != """"" /\
+          s1 = lit "for _, x := range xs" /\ s2 = lit "if a != """"" /\ s3 = lit "else if len(xs) > 0" /\ s4 = lit "else" /\
           eval_segs (fun e => lit "<" ++ e ++ lit ">") b1 = lit "<li>&lt;x&gt;</li>" ++ [10] /\
-          eval_segs (fun e => e) b2 = lit "<b>yes</b>" ++ [10]
+          eval_segs (fun e => e) b2 = lit "<b>yes</b>" ++ [10] /\ eval_segs (fun e => e) b4 = lit "<u>no</u>" ++ [10]
       | _ => False
       end
   | _ => False
   end.
 Proof.
-  cbv [ex2_items]. split; [|vm_compute; repeat split; reflexivity].
+  cbv [ex2_items]. split; [|split; [vm_compute; repeat split; try reflexivity; intros; try assumption; discriminate|vm_compute; repeat split; reflexivity]].
   Ltac dn1 :=
     match goal with
     | |- _ /\ _ => split
@@ -163,6 +166,7 @@ Proof.
     | |- Forall _ (_ :: _) => constructor
     | |- True => exact I
     | |- dyn_node _ => cbn [dyn_node]
+    | |- kids_ok _ => vm_compute; repeat split; try reflexivity; intros; try assumption; try discriminate
     | |- dyn_text _ => unfold dyn_text, static_text; cbn
     | |- static_elem _ => unfold static_elem; cbn
     | |- dyn_elem _ => unfold dyn_elem; cbn
